@@ -187,7 +187,8 @@ func (n *NodeProcessor) WriteShard(points []models.Point) error {
 	i, j := 0, len(points)
 	for i < j {
 		b := marshalWrite(n.shardID, points[i:j])
-		for len(b) > defaultSegmentSize {
+		// A block fits an empty segment only up to the segment size minus its footer.
+		for len(b) > defaultSegmentSize-footerSize {
 			if j == i+1 {
 				return ErrSegmentFull
 			}
